@@ -250,6 +250,45 @@ class Trial:
         shutil.rmtree(self.arr.root, ignore_errors=True)
 
 
+def swap_trials(chk, binary, rng, n):
+    """two files of one disk with the same size and the same mtime SECOND but different nanoseconds exchange their names (so
+    each name now sits on the inode the content file records for the other one): every stripe has one damaged block; fix must
+    bring back bytes AND the nanosecond-exact time-stamps (the escape clause of the property needs the same size and the same
+    time-stamp, not the same second).  Fresh arrays, no restore: the recorded inodes must be the real ones."""
+    done = 0
+    for t in range(n):
+        nd = rng.choice([1, 2, 3]); np_ = rng.choice([1, 2])
+        a = Array(binary, nd=nd, np_=np_)
+        try:
+            d = rng.choice(a.disks)
+            size = rng.choice([1024, 2048, 3000, 1500])
+            sec = 1700000000 + rng.randrange(100000)
+            ns1, ns2 = rng.sample([1, 123456789, 500000000, 987654321, 999999999], 2)
+            a.write(d, 'sw1', rng.randbytes(size), mtime_ns=sec * 10**9 + ns1)
+            a.write(d, 'sw2', rng.randbytes(size), mtime_ns=sec * 10**9 + ns2)
+            for od in a.disks:
+                a.write(od, 'other', rng.randbytes(rng.choice([1024, 4096, 2500])))
+            r = a.run('sync')
+            if r.rc != 0:
+                continue
+            st = a.content(); sv = Saved(a)
+            p1, p2, tmp = a.path(d, 'sw1'), a.path(d, 'sw2'), a.path(d, 'sw.tmp')
+            os.rename(p1, tmp); os.rename(p2, p1); os.rename(tmp, p2)
+            r = a.run('fix')
+            errs = compare_with_saved(a, sv, st)
+            r2 = a.run('check')
+            bad = (['fix exits %d' % r.rc] if r.rc else []) + errs[:2] + (['check after fix exits %d' % r2.rc] if r2.rc else [])
+            done += 1
+            for b in bad[:1]:
+                chk.violation('swap', 'nd=%d np=%d: %s:sw1 and %s:sw2 (%d bytes, same second, nanoseconds %d / %d) exchanged their names; after fix: %s' % (nd, np_, d, d, size, ns1, ns2, b),
+                              {'kind': 'swap', 'nd': nd, 'np': np_, 'disk': d, 'size': size, 'sec': sec, 'nsec': [ns1, ns2], 'problems': bad, 'fix_tags': interesting(r.tags)[:30]})
+        finally:
+            shutil.rmtree(a.root, ignore_errors=True)
+        if len(chk.violations) > 8:
+            break
+    return done
+
+
 OBS_KEYS = {'parity-unaligned': 'F-C01-unaligned-parity-refused', 'grown-file': 'F-C01-grown-file-mtime-not-restored',
             'no-blocks': 'F-C01-no-blocks-nothing-restored'}
 
@@ -382,6 +421,7 @@ def main(tier, replay=None):
                     'arrays': tot['arrays'], 'blocks_damaged_in_patterns': tot['blocks'], 'fix_runs_replayed_by_model': tot['model'],
                     'traces_validated_against_impl': tot['model']})
     chk.cov['samples'] = samples
+    chk.cov['name_exchange_trials'] = swap_trials(chk, binary, rng, 6 if tier == 'quick' else 40)
     try:
         chk.cov['observations'] = observations(chk, binary)
     except Exception as e:
